@@ -67,6 +67,16 @@ def check_consumed(ctx, P, fn, cb, producer, consumers, rule, field=None, accept
     if accept_empty_skip:
         bypass = guard_edges(P, fn, pred)
     key = "%s|%s%s" % (fn.name, producer, ("." + field) if field else "")
+    # the value must reach the consumer whole: no truncating iterator adapter between the eviction and the report
+    TRUNCATING = ("take", "skip", "step_by", "filter", "take_while", "skip_while", "nth", "filter_map", "truncate", "split_off", "drain")
+    for b, t in fn.calls():
+        if method(cname(t)) in TRUNCATING:
+            for a in t["args"][:1]:
+                e = tr.operand(a, endpos(fn, b))
+                hit = _mentions_call(e, fn.name, cb) if field is None else _mentions_field_of_call(e, fn.name, cb, field)
+                if hit:
+                    ctx.ob(rule, key + "|whole", False, fn.loc(b), "the result of %s goes through `%s` before it is reported: part of the eviction can be lost" % (producer, method(cname(t))))
+                    return False
     if not cons_blocks:
         ctx.ob(rule, key, False, fn.loc(cb),
                "result of %s%s is never passed to %s: the eviction is not reported" % (producer, ("." + field) if field else "", "/".join(consumers)))
